@@ -2,6 +2,7 @@ package c08
 
 import (
 	"fmt"
+	"pgregory.net/rapid"
 	"strings"
 	"testing"
 
@@ -264,4 +265,82 @@ func TestC08ExtensionBoundary(t *testing.T) {
 	}
 	t.Logf("%d layouts with extension records, %d without", ext, noExt)
 	stats.Exhaustive("ext-boundary")
+}
+
+// TestC08ExtensionBoundaryGen is TestC08ExtensionBoundary with drawn
+// parameters: many small lookups (sizes, number, and the share of them that
+// carries a mark filtering set are drawn, so that per-lookup header sizes
+// enter the layout arithmetic in different proportions), one large lookup,
+// and one lookup whose size is swept in steps of two bytes across more than
+// the size of a small lookup.  Every emitted 16-bit offset must hold at
+// every step.
+func TestC08ExtensionBoundaryGen(t *testing.T) {
+	big := lookups.FindBigClass("gsub1_2")
+	rapid.Check(t, func(t *rapid.T) {
+		smallN := rapid.IntRange(4, 110).Draw(t, "smallN")
+		smallBytes := 8 + 10 + 4*smallN // lookup table + Gsub1_2 with format 1 coverage (approx.)
+		bigN := rapid.IntRange(1500, 6000).Draw(t, "bigN")
+		target := rapid.IntRange(68000, 110000).Draw(t, "totalBytes")
+		nSmall := (target - (18 + 4*bigN)) / smallBytes
+		if nSmall < 20 {
+			nSmall = 20
+		}
+		if nSmall > 1200 {
+			nSmall = 1200
+		}
+		flagged := rapid.SampledFrom([]int{0, 1, 2, 2, 2}).Draw(t, "flagged") // none, every other, all
+		var fixed gtab.LookupList
+		bigPos := rapid.IntRange(0, nSmall).Draw(t, "bigPos")
+		for i := 0; i <= nSmall; i++ {
+			if i == bigPos {
+				fixed = append(fixed, bigLookup(big, bigN))
+				continue
+			}
+			l := bigLookup(big, smallN+i%7)
+			if flagged == 2 || (flagged == 1 && i%2 == 0) {
+				m := *l.Meta
+				m.LookupFlags |= gtab.UseMarkFilteringSet
+				m.MarkFilteringSet = uint16(i % 3)
+				l = &gtab.LookupTable{Meta: &m, Subtables: l.Subtables}
+			}
+			fixed = append(fixed, l)
+		}
+		tunerPos := rapid.IntRange(0, len(fixed)).Draw(t, "tunerPos")
+		steps := smallBytes/2 + 40
+		if steps > 260 {
+			steps = 260
+		}
+		ext := 0
+		for j := 1; j <= steps; j++ {
+			gg := lookups.Spread(j, 5, []int{2})
+			tuner := &gtab.LookupTable{
+				Meta:      &gtab.LookupMetaInfo{LookupType: 1, LookupFlags: gtab.UseMarkFilteringSet, MarkFilteringSet: 3},
+				Subtables: []gtab.Subtable{&gtab.Gsub1_1{Cov: lookups.CovSet(gg), Delta: 1}},
+			}
+			ll := append(append(gtab.LookupList{}, fixed[:tunerPos]...), tuner)
+			ll = append(ll, fixed[tunerPos:]...)
+			c := &infoCase{
+				kind:  gtab.TypeGsub,
+				info:  &gtab.Info{ScriptList: dfltScripts(), FeatureList: oneFeature(), LookupList: ll},
+				sites: []string{lookups.SiteLookupOffset},
+				desc: []string{fmt.Sprintf("%d lookups: Gsub1_2 N=%d at %d, %d x Gsub1_2 N=%d..%d (mark filtering set on %s), Gsub1_1 with %d glyphs at position %d",
+					len(ll), bigN, bigPos, nSmall, smallN, smallN+6, []string{"none", "every other one", "all"}[flagged], j, tunerPos)},
+			}
+			v, f := checkInfo(c)
+			if f != nil {
+				if !stats.Known(prop, f.key) {
+					t.Fatalf("C08 violated [key=%s]: %s\n  desc=%v", f.key, f.msg, c.desc)
+				}
+				continue
+			}
+			if v.ext > 0 {
+				ext++
+			}
+		}
+		stats.LabelN("ext-boundary-gen", "layouts", int64(steps))
+		stats.LabelN("ext-boundary-gen", "layouts-with-extension-records", int64(ext))
+		stats.CaseIn("ext-boundary-gen", stats.Hash(smallN, bigN, nSmall, flagged, bigPos, tunerPos), ext > 0, func() string {
+			return fmt.Sprintf("%d small lookups (N=%d, mark filtering set on %s), big N=%d: %d size steps, %d with extension records", nSmall, smallN, []string{"none", "every other one", "all"}[flagged], bigN, steps, ext)
+		}, fmt.Sprintf("flagged-%d", flagged))
+	})
 }
